@@ -21,7 +21,7 @@ func init() {
 	fw.Register(&fw.Check{
 		ID:    "C19",
 		Level: "fault_enumeration",
-		Rule: "case = (scenario, fault kind); scenarios: count vectors (1,1,1,1,1) and (2,2,2,2,2) in quick, plus (3,3,3,3,3), (3,1,0,2,3), (2,2,0,0,2), two further AMF-choice variations and one LONG run (12,12,12,12,12; two fault kinds only) in thorough; fault kinds: close (instead of message k), abort (the association is ended with the request that message k would answer still UNREAD: the peer sees a reset, not end-of-file), close-after (right after sending message k, for every k < M after which the emulator still has to write) + 15 garbage variants (bytes laid out like an SCTP event notification; an undecodable answer that arrives 17 s late - after a UE's 15 / 16 s guard timers; the header of a DOWNLINK NAS TRANSPORT / of another message an AMF may send unsolicited, then noise; the first half of the message under the header of another procedure, one octet, 32 random octets, first half, truncated by one, wrong PDU alternative, length beyond the data, zeros, 2047 / 2048 / 8192 random octets). " +
+		Rule: "case = (scenario, fault kind); scenarios: count vectors (1,1,1,1,1) and (2,2,2,2,2) in quick, plus (3,3,3,3,3), (3,1,0,2,3), (2,2,0,0,2), two further AMF-choice variations and one LONG run (12,12,12,12,12; two fault kinds only) in thorough; fault kinds: close (instead of message k), abort (the association is ended with the request that message k would answer still UNREAD: the peer sees a reset, not end-of-file), close-after (right after sending message k, for every k < M after which the emulator still has to write) + 16 garbage variants (a PDU whose frame - alternative, procedure code, criticality, matching length - is intact around an undecodable interior; bytes laid out like an SCTP event notification; an undecodable answer that arrives 17 s late - after a UE's 15 / 16 s guard timers; the header of a DOWNLINK NAS TRANSPORT / of another message an AMF may send unsolicited, then noise; the first half of the message under the header of another procedure, one octet, 32 random octets, first half, truncated by one, wrong PDU alternative, length beyond the data, zeros, 2047 / 2048 / 8192 random octets). " +
 			"Each case runs the baseline under strace and then one emulator process per fault index k in [0,R) (exhaustive over k). Verdict per faulted run: exit status must be non-zero, no completion banner, not blocked: " +
 			"'blocked' = after the watchdog (nominal duration of the whole scenario + 20 s) two samples of /proc/<pid>/task/*/syscall three seconds apart both show recvmsg on the N2 descriptor while the AMF is quiescent. " +
 			"One extra case per kind drives EstablishPDU through the procedure driver with the fault on its own reply. distinct = hash(scenario, kind); non-trivial = at least 2 faulted runs",
@@ -160,7 +160,7 @@ func runC19(c *fw.Case) (o fw.Outcome) {
 			case !res.AMF.FaultFired:
 				vd = &verdict{k, "", fmt.Sprintf("%s: the fault index was never reached (conversation diverged from the baseline)", where), true}
 			case res.TimedOut && strings.Contains(res.BlockedIn, "recvmsg") && !strings.HasPrefix(res.BlockedIn, "unstable"):
-				vd = &verdict{k, "hang-after-fault", fmt.Sprintf("%s: the emulator neither exits nor progresses: blocked in %s %v after the fault, AMF quiescent\n stdout tail: %s", where, res.BlockedIn, res.Duration.Round(time.Second), tail(res.Stdout, 300)), false}
+				vd = &verdict{k, "hang-after-fault", fmt.Sprintf("%s: the emulator neither exits nor progresses: blocked in %s %v after the fault, AMF quiescent [%s]\n stdout tail: %s", where, res.BlockedIn, res.Duration.Round(time.Second), res.Diag, tail(res.Stdout, 300)), false}
 			case res.TimedOut:
 				vd = &verdict{k, "", fmt.Sprintf("%s: watchdog fired, emulator in %q", where, res.BlockedIn), true}
 			case strings.Contains(res.Stdout, ">> All tests finished"):
@@ -203,10 +203,14 @@ func c19Proc(c *fw.Case, kind string) (o fw.Outcome) {
 	o.Input = fmt.Sprintf("procedure driver: fault %q on the PDUSessionResourceSetupRequest (downlink message 5) answering EstablishPDU", kind)
 	o.Digest = fw.HashS("c19proc", kind)
 	o.Nontrivial = true
-	pr, code, raw, timedOut := runProcChild(sp, 40*time.Second+refamf.LateBy(kind))
+	pr, code, raw, timedOut := runProcChild(sp, 150*time.Second+refamf.LateBy(kind))
 	o.Count("procedure_driver_fault_runs", 1)
 	if timedOut {
-		o.Fail("establish-hangs-after-fault", "EstablishPDU did not return nor exit within 40 s after fault %q on its reply", kind)
+		o.Inconcl("procedure driver child exceeded its watchdog (fault %q)", kind)
+		return
+	}
+	if pr != nil && pr.Stuck {
+		o.Fail("establish-hangs-after-fault", "EstablishPDU neither returned nor ended the process: 25 s after fault %q had taken effect on its reply the network is silent and the procedure is asleep in its read\n conversation:%s", kind, pr.Conversation)
 		return
 	}
 	if pr != nil && len(pr.UEs) == 1 && pr.UEs[0].Established {
